@@ -72,11 +72,12 @@ def outcome(s, keep=False):
         ex, p = None, "rej"
     except BaseException as e:   # noqa: B902  (RecursionError, lark exceptions ... are observations here)
         ex, p = None, "crash:" + type(e).__name__
+    msg = None
     try:
         gs = parsing.compile_str(s)
         c = "graphs"
-    except ValueError:
-        gs, c = None, "verr"
+    except ValueError as e:
+        gs, c, msg = None, "verr", str(e)
     except BaseException as e:   # noqa: B902
         gs, c = None, "crash:" + type(e).__name__
     if c == "graphs" and not isinstance(gs, list):
@@ -101,7 +102,8 @@ def outcome(s, keep=False):
             agree = True
         except BaseException:   # noqa: B902
             agree = False
-        return {"o": "cerr", "agree": agree}, None
+        # "msg": is it the uniqueness check of ObserverGraph.__init__ (the listed finding) or another refusal?
+        return {"o": "cerr", "agree": agree, "msg": "children" if msg == "Not all children are unique." else "other"}, None
     return {"o": "rej", "agree": True}, None
 
 
@@ -195,8 +197,8 @@ def run_expr(c):
         return {"o": "crash", "exc": "build:" + type(e).__name__}
     try:
         gs = expression.compile_expr(ex)
-    except ValueError:
-        return {"o": "cerr"}
+    except ValueError as e:
+        return {"o": "cerr", "msg": "children" if str(e) == "Not all children are unique." else "other"}
     except BaseException as e:   # noqa: B902
         return {"o": "crash", "exc": type(e).__name__}
     return {"o": "graphs", "g": [graph(g) for g in gs]}
@@ -260,38 +262,46 @@ class Root(Leaf):
     group = Set(Instance(Leaf))
 
 
-EXTRA_NAMES = {"child": 8, "kids": 10, "table": 11, "group": 12}
+EXTRA_NAMES = {"child": 8, "kids": 10, "table": 11, "group": 12, "trait_added": 13, "trait_modified": 14, "zz_new": 16}
 
 
 def run_hook(c):
     """Register a recording handler by the text on the probe heap of C15/Law.v (object numbers: 0 root, 1 child,
-    2 the kids list, 3 and 4 its items, 5 the table dict, 6 its value, 7 the group set, 8 its item), change every
-    number-valued trait of every Leaf once, mutate the three containers, then reassign child / kids / table / group:
-    which changes were reported (16*object + trait index; 9 = a mutation of the container itself)."""
+    2 the kids list, 3 and 4 its items, 5 the table dict, 6 its value, 7 the group set, 8 its item).  Then: change
+    every number-valued trait of every Leaf once, fire trait_modified on every Leaf, add a trait zz_new to every Leaf
+    (fires trait_added) and change it, mutate the three containers, reassign child / kids / table / group; finally
+    touch the replaced objects again (nothing may be reported for them: reported as 1000 + code).
+    Reported: 32*object + trait index (9 = a mutation of the container itself)."""
     root = Root(child=Leaf(), kids=[Leaf(), Leaf()], table={"k": Leaf()}, group={Leaf()})
     objs = [root, root.child, root.kids, root.kids[0], root.kids[1], root.table, root.table["k"], root.group,
             next(iter(root.group))]
     fired = []
+    stale = [0]
 
     def handler(event):
-        ob = next((i for i, x in enumerate(objs) if x is event.object), 15)
+        ob = next((i for i, x in enumerate(objs) if x is event.object), 30)
         name = getattr(event, "name", None)
         if name is None:
             idx = 9
         elif name in LEAF_NAMES:
             idx = LEAF_NAMES.index(name)
         else:
-            idx = EXTRA_NAMES.get(name, 15)
-        fired.append(16 * ob + idx)
+            idx = EXTRA_NAMES.get(name, 31)
+        fired.append(stale[0] + 32 * ob + idx)
 
     try:
         root.observe(handler, c["s"])
     except BaseException as e:   # noqa: B902
         return {"registered": False, "fired": [], "exc": type(e).__name__}
+    leaves = (0, 1, 3, 4, 6, 8)
     try:
-        for i in (0, 1, 3, 4, 6, 8):
+        for i in leaves:
             for n in LEAF_NAMES:
                 setattr(objs[i], n, getattr(objs[i], n) + 1)
+            objs[i].trait_modified = True
+        for i in leaves:
+            objs[i].add_trait("zz_new", Int())
+            objs[i].zz_new = 5
         objs[2].append(Leaf())
         objs[5]["z"] = Leaf()
         objs[7].add(Leaf())
@@ -299,6 +309,15 @@ def run_hook(c):
         root.kids = [Leaf()]
         root.table = {}
         root.group = set()
+        stale[0] = 1000
+        for i in (1, 3, 4, 6, 8):
+            for n in LEAF_NAMES:
+                setattr(objs[i], n, getattr(objs[i], n) + 1)
+            objs[i].trait_modified = True
+            objs[i].zz_new = 6
+        objs[2].append(Leaf())
+        objs[5]["y"] = Leaf()
+        objs[7].add(Leaf())
     except BaseException as e:   # noqa: B902
         return {"registered": True, "fired": sorted(set(fired)) + [999], "exc": type(e).__name__}
     return {"registered": True, "fired": sorted(set(fired))}
@@ -343,7 +362,7 @@ def run_blocks(job):
             for code in enc.enc_outcome(o):
                 h = enc.dstep(h, code)
             k = o["o"]
-            if not o.get("agree", True):
+            if not o.get("agree", True) or o.get("msg") == "other":
                 h = enc.dstep(h, 97)      # entry points disagree: forces a digest difference -> embedded re-run
                 other.append(i)
             elif k == "graphs":
